@@ -189,10 +189,10 @@ and no `copy="ref"/"shallow"` metadata, or `copy="deep"` metadata with any
 old or materialised during the cloning. -/
 theorem C14_no_sharing_clone_deep {E : Env} (hI : Idem E) (hC : CopyStable E) (s : Obj) (o' n m : Nat)
     (arg : Option CopyMode) (hmn : m ≤ n) (hb : BelowAll m s.slots)
-    (hd : ∀ sl ∈ s.slots, DeepOK E arg (copiesAll s.slots) sl) :
+    (hd : ∀ sl ∈ s.slots, DeepOK E arg false sl) :
     ∀ c ∈ (cloneTraits E s o' arg n).copy.slots, ∀ i ∈ slotIds c,
       ∀ a ∈ (cloneTraits E s o' arg n).orig.slots, i ∉ slotIds a :=
-  (cloneL_no_sharing hI hC s.oid o' m arg (copiesAll s.slots) s.slots n hmn hb hd).2.2.2
+  (cloneL_no_sharing hI hC s.oid o' m arg false s.slots n hmn hb hd).2.2.2
 
 /-- **No sharing under `copy.deepcopy`.**  `copy.deepcopy(obj)` of any
 well-formed object shares no container object with `obj`, for every trait that
@@ -243,40 +243,29 @@ theorem C14_clone_values_fails_at : ¬ C14_clone_values := by
     subst hs
     exact ⟨.any _, fun v _ => .any v⟩
   have := h E0 s 2 1 (some .deep) hw
-  simp only [cloneTraits, cloneL, cloneSlot, copiesAll, Decl.copyable, readSlot, copyValue, effMode,
+  simp only [cloneTraits, cloneL, cloneSlot, Decl.copyable, readSlot, copyValue, effMode,
     deepcopyV, deepcopyL, s, d] at this
   cases this with
   | cons r _ =>
     obtain ⟨_, _, _, hb, _⟩ := r (by simp)
     simp at hb
 
-/-- Full clause: in a clone every transient trait is back at its default. -/
-def C14_clone_transient_default : Prop :=
-  ∀ (E : Env) (s : Obj) (o' n : Nat) (arg : Option CopyMode), WFObj E s →
-    ∀ sl ∈ (cloneTraits E s o' arg n).copy.slots, sl.decl.transient = true → sl.val = none
+/-- **Transient traits stay at their defaults in a clone** (`clone_traits` with
+any `copy` argument, hence also `copy.deepcopy`): a transient trait is never in
+the clone's `__dict__`.  Before the F72 repair this failed for objects none of
+whose traits is copyable: `clone_traits` handed `copy_traits` the empty list of
+copyable names, which `copy_traits` reads as "all". -/
+theorem C14_clone_transient_default (E : Env) (s : Obj) (o' n : Nat) (arg : Option CopyMode) :
+    ∀ sl ∈ (cloneTraits E s o' arg n).copy.slots, sl.decl.transient = true → sl.val = none :=
+  cloneL_transient E s.oid o' arg s.slots n
 
-/-- Refuted (finding F16): `clone_traits` passes the list of copyable names to
-`copy_traits`, which reads an EMPTY list as "all traits" (has_traits.py:1583-1586):
-when no trait of the object is copyable, every trait is copied, transient ones
-included.  Witness: a class whose only trait is `x = Any(transient=True)`. -/
-theorem C14_clone_transient_default_fails_at : ¬ C14_clone_transient_default := by
-  intro h
-  let d : Decl := { name := "x", shape := .any, transient := true }
-  let s : Obj := ⟨1, [⟨d, some (.leaf (.int 3))⟩]⟩
-  have hw : WFObj E0 s := by
-    intro sl hs
-    simp only [s, List.mem_singleton] at hs
-    subst hs
-    exact ⟨.any _, fun v _ => .any v⟩
-  have := h E0 s 2 1 none hw ⟨d, some (.leaf (.int 3))⟩ (by simp [cloneTraits, cloneL, cloneSlot, copiesAll,
-    Decl.copyable, readSlot, copyValue, effMode, assignSlot, validate, s, d]) rfl
-  simp at this
-
-/-- Proved whenever at least one trait is copyable: then transient traits are never copied. -/
-theorem C14_clone_transient_default_partial (E : Env) (oS oD : Nat) (arg : Option CopyMode) (n : Nat)
-    (src : Slot) (ht : src.decl.transient = true) :
-    (cloneSlot E oS oD arg false n src).1.val = none := by
-  simp [cloneSlot, Decl.copyable, ht]
+/-- Regression example, the input of finding F72: a class whose only trait is
+`x = Any(transient=True)`, `obj.x = 3`; the clone's `x` is unset. -/
+example :
+    let d : Decl := { name := "x", shape := .any, transient := true }
+    let s : Obj := ⟨1, [⟨d, some (.leaf (.int 3))⟩]⟩
+    (cloneTraits E0 s 2 none 1).copy.slots.map (fun sl => sl.val.isSome) = [false] := by
+  decide
 
 /-! ## Trait definition objects -/
 
